@@ -7,6 +7,15 @@ ROOT = os.path.dirname(os.path.dirname(os.path.abspath(__file__)))
 ALL = [f"C{i:02d}" for i in range(1, 21)]
 
 CLAIMED = {
+    "C12": dict(
+        text="Bounded symbolic execution (CrossHair/z3) of the real Server (start, dispatcher with its finally block, passive listeners, workers, close) serving the real Client over a simulated "
+             "network, cut at a SYMBOLIC event-loop iteration by the peer vanishing or by Server.close(): afterwards no server-side transport, passive listener or backend file is open, the connection "
+             "table is empty, port pool and slots are complete, and Server.close() completes leaving no task behind.",
+        note="Trusted: CrossHair/z3, SimNet (TCP contract; start_server leaks a listener cancelled after binding, like asyncio), SpyPathIO. Each cut point is a separate path; the solver certifies none is skipped. "
+             "Outside: several sessions cut at once, TLS, real file descriptors.",
+        technique="bounded symbolic execution of the real Python code (CrossHair 0.0.110 + z3): symbolic crash point (loop iteration)",
+        design_ref="DESIGN.md section 3 C12",
+    ),
     "C16": dict(
         text="Bounded symbolic execution (CrossHair/z3) of the real dispatcher, StreamIO/ThrottleStreamIO timeouts and ConnectionConditions(wait=True) on a virtual-time loop with SYMBOLIC "
              "idle/socket/wait_future timeouts and gaps (integer ms): drop at exactly last command + idle_timeout and never earlier, 425 at exactly + wait_future_timeout with the session continuing, "
